@@ -9,6 +9,7 @@ import (
 	"bytes"
 	"context"
 	"errors"
+	"io"
 	"os"
 	"sort"
 	"sync"
@@ -33,21 +34,28 @@ type c13Net struct {
 	env   *c13Env
 	mu    sync.Mutex
 	table []*c13Conn
+	connHook func()
 }
 
 func (n *c13Net) Peerstore() peerstore.Peerstore { return n.env.ps }
 func (n *c13Net) LocalPeer() peer.ID            { return c13Local.id }
 func (n *c13Net) Connectedness(p peer.ID) network.Connectedness {
 	n.mu.Lock()
-	defer n.mu.Unlock()
 	res := network.NotConnected
 	for _, c := range n.table {
 		if c.peer == p {
 			if !c.limited {
-				return network.Connected
+				res = network.Connected
+				break
 			}
 			res = network.Limited
 		}
+	}
+	h := n.connHook
+	n.mu.Unlock()
+	// scripted: the swarm changes right after it answered (the answer is what was true when asked)
+	if h != nil {
+		h()
 	}
 	return res
 }
@@ -113,7 +121,7 @@ func (c *c13Conn) NewStream(ctx context.Context) (network.Stream, error) {
 		if a.err != nil {
 			return nil, a.err
 		}
-		return &c13Stream{conn: c, r: bytes.NewReader(a.data), hang: a.hang}, nil
+		return c13NewStream(c, a.data, a.hang, ""), nil
 	case <-ctx.Done():
 		return nil, ctx.Err()
 	}
@@ -133,20 +141,53 @@ type c13Stream struct {
 	network.Stream
 	conn     *c13Conn
 	r        *bytes.Reader
-	hang     bool
+	hang     bool // after the data: the remote says nothing more and does not close
 	proto    protocol.ID
+	mu       sync.Mutex
 	deadline time.Time
+	dlCh     chan struct{} // closed (and replaced) whenever the deadline changes
 }
 
+func c13NewStream(c *c13Conn, data []byte, hang bool, proto protocol.ID) *c13Stream {
+	return &c13Stream{conn: c, r: bytes.NewReader(data), hang: hang, proto: proto, dlCh: make(chan struct{})}
+}
+
+// Read serves the scripted bytes; then EOF, or — for a silent remote — blocks
+// until the read deadline identify set (for ever if it set none)
 func (s *c13Stream) Read(p []byte) (int, error) {
-	if s.hang {
-		// honours the deadline identify sets: blocks until then
-		if d := time.Until(s.deadline); d > 0 {
-			time.Sleep(d)
-		}
-		return 0, os.ErrDeadlineExceeded
+	if s.r.Len() > 0 || !s.hang {
+		return s.r.Read(p)
 	}
-	return s.r.Read(p)
+	for {
+		s.mu.Lock()
+		d, ch := s.deadline, s.dlCh
+		s.mu.Unlock()
+		if d.IsZero() {
+			select {
+			case <-ch:
+				continue
+			case <-s.conn.env.quit:
+				return 0, io.ErrClosedPipe
+			}
+		}
+		t := time.NewTimer(time.Until(d))
+		select {
+		case <-t.C:
+			return 0, os.ErrDeadlineExceeded
+		case <-ch:
+			t.Stop()
+		case <-s.conn.env.quit:
+			t.Stop()
+			return 0, io.ErrClosedPipe
+		}
+	}
+}
+func (s *c13Stream) setDeadline(t time.Time) {
+	s.mu.Lock()
+	s.deadline = t
+	close(s.dlCh)
+	s.dlCh = make(chan struct{})
+	s.mu.Unlock()
 }
 func (s *c13Stream) Write(p []byte) (int, error)        { return len(p), nil }
 func (s *c13Stream) Close() error                       { return nil }
@@ -154,8 +195,8 @@ func (s *c13Stream) CloseRead() error                   { return nil }
 func (s *c13Stream) CloseWrite() error                  { return nil }
 func (s *c13Stream) Reset() error                       { return nil }
 func (s *c13Stream) ResetWithError(network.StreamErrorCode) error { return nil }
-func (s *c13Stream) SetDeadline(t time.Time) error      { s.deadline = t; return nil }
-func (s *c13Stream) SetReadDeadline(t time.Time) error  { s.deadline = t; return nil }
+func (s *c13Stream) SetDeadline(t time.Time) error      { s.setDeadline(t); return nil }
+func (s *c13Stream) SetReadDeadline(t time.Time) error  { s.setDeadline(t); return nil }
 func (s *c13Stream) SetWriteDeadline(time.Time) error   { return nil }
 func (s *c13Stream) ID() string                         { return "c13-stream" }
 func (s *c13Stream) Protocol() protocol.ID              { return s.proto }
@@ -188,6 +229,7 @@ type c13Env struct {
 	chans  []<-chan struct{}  // wait channels seen so far; id = index+1
 	gates  map[int64]*c13Gate // pending identify task: wait channel id -> its gate
 	taskOf map[int64]int64    // wait channel id -> connection index
+	quit   chan struct{}      // closed when the case is over: silent remotes go away
 }
 
 func (e *c13Env) peerIdx(p peer.ID) int64 {
@@ -229,7 +271,7 @@ func (e *c13Env) describeAddr(a ma.Multiaddr) []int64 {
 
 func c13NewEnv(np int, kinds []int64, maxProtos, pcap int, timeout time.Duration, conns [][4]int64) *c13Env {
 	c13Keys()
-	e := &c13Env{np: np, gates: map[int64]*c13Gate{}, taskOf: map[int64]int64{}}
+	e := &c13Env{np: np, gates: map[int64]*c13Gate{}, taskOf: map[int64]int64{}, quit: make(chan struct{})}
 	e.peers = make([]c13Key, np+1)
 	ne, nr := 0, 0
 	for i := 1; i <= np; i++ {
@@ -271,6 +313,7 @@ func c13NewEnv(np int, kinds []int64, maxProtos, pcap int, timeout time.Duration
 }
 
 func (e *c13Env) close() {
+	close(e.quit)
 	e.sub.Close()
 	e.ids.Close()
 	e.raw.Close()
@@ -386,6 +429,19 @@ func (e *c13Env) observe(ret int64) []int64 {
 			switch x := ev.(type) {
 			case event.EvtPeerIdentificationCompleted:
 				evs = append(evs, 1, e.peerIdx(x.Peer))
+				if env := x.SignedPeerRecord; env != nil {
+					// the record handed on as the peer's: who sealed it, whom it names
+					signer, named := int64(99), int64(99)
+					if id, err := peer.IDFromPublicKey(env.PublicKey); err == nil {
+						signer = e.peerIdx(id)
+					}
+					if r, err := env.Record(); err == nil {
+						if pr, ok := r.(*peer.PeerRecord); ok {
+							named = e.peerIdx(pr.PeerID)
+						}
+					}
+					evs = append(evs, 4, signer, 5, named)
+				}
 			case event.EvtPeerIdentificationFailed:
 				evs = append(evs, 2, e.peerIdx(x.Peer))
 			case event.EvtPeerProtocolsUpdated:
